@@ -690,7 +690,12 @@ fn shares<C: BlsSignatureImpl + PartialEq + Copy>(c: &Value, keys: &[SecretKey<C
         }
         "duplicate_any" => {
             for i in 0..n { for j in 0..n { if i != j { let mut x = ps.clone(); x[j] = ps[i]; if Signature::<C>::from_shares(&x).is_ok() { return Some(format!("share {} repeated at position {} accepted", i, j)); }
-                let mut y = pks.clone(); y[j] = pks[i]; if PublicKey::<C>::from_shares(&y).is_ok() { return Some(format!("public-key share {} repeated at position {} accepted", i, j)); } } } }
+                let mut y = pks.clone(); y[j] = pks[i]; if PublicKey::<C>::from_shares(&y).is_ok() { return Some(format!("public-key share {} repeated at position {} accepted", i, j)); }
+                let mut z = sh.clone(); z[j] = sh[i].clone(); if SecretKey::<C>::combine(&z).is_ok() { return Some(format!("secret share {} repeated at position {} accepted by SecretKey::combine", i, j)); } } } }
+            // a repeated share INSERTED (adjacent and non-adjacent), the rest of the set complete
+            for i in 0..n { for at in 0..=n { let mut z = sh.clone(); z.insert(at, sh[i].clone()); if SecretKey::<C>::combine(&z).is_ok() { return Some(format!("secret share {} listed twice (inserted at {}) accepted by SecretKey::combine", i, at)); }
+                let mut x = ps.clone(); x.insert(at, ps[i]); if Signature::<C>::from_shares(&x).is_ok() { return Some(format!("partial signature {} listed twice (inserted at {}) accepted", i, at)); }
+                let mut y = pks.clone(); y.insert(at, pks[i]); if PublicKey::<C>::from_shares(&y).is_ok() { return Some(format!("public-key share {} listed twice (inserted at {}) accepted", i, at)); } } }
             None
         }
         "subsets" => {
